@@ -86,10 +86,16 @@ CLAIMED = {
         "and sit on line feeds; tokens are ordered and inside the comment. Markdown::parse (kernel of C02, pulldown-cmark stubbed "
         "by contract) hands the inner parser exactly the characters of each text event at their true character offsets whatever "
         "multi-byte characters precede them, and turns code spans, HTML and ignored link titles into Unlintable tokens on their "
-        "own characters (texts of 3-4 (5) symbolic characters).",
-        "Everything that decides WHICH characters are prose is outside: tree-sitter comment extraction and byte->char conversion "
-        "(harper-tree-sitter, C FFI), the masker and ignore markers, pulldown-cmark itself, HTML, Typst, Literate Haskell, "
-        "git-commit parser, JavaDoc (HtmlParser). Only the re-offsetting arithmetic of three comment wrappers and of the Markdown front-end is decided, on short texts.",
+        "own characters (texts of 3-4 (5) symbolic characters); an HTML-entity event (text = one decoded character, source >= 3 "
+        "characters) does not shift later events. parsers::Mask::parse with mask::Mask::{push_allowed, merge_whitespace_sep, "
+        "iter_allowed} - the machinery all masked front-ends share - on texts of 3-4 (5) symbolic characters and a contract-bound stub "
+        "masker with up to 2 (3) allowed spans: chunks ordered, disjoint, covering exactly what was allowed (plus whitespace-only gaps "
+        "when merged), word tokens at their true offsets, paragraph breaks exactly on gaps containing a line feed. Unit::parse's code "
+        "fences: on skeleton comments with a fully symbolic line, nothing inside a ``` fence is handed to the prose parser.",
+        "Everything that decides WHICH characters are prose in a real file is outside: tree-sitter comment extraction and byte->char "
+        "conversion (harper-tree-sitter, C FFI), the concrete maskers and ignore markers, pulldown-cmark itself, HTML, Typst, Literate "
+        "Haskell, git-commit parser, JavaDoc (HtmlParser). Decided: the re-offsetting arithmetic of three comment wrappers, of Mask and "
+        "of the Markdown front-end, and the comment code-fence rule, on short texts.",
         "DESIGN.md section 4, C04"),
     "C05": (
         "Kernel of the property's central mechanism, decided by MIR symbolic execution (mirsym, z3): the real "
